@@ -477,7 +477,9 @@ func (s *schemaBuilder) buildFromType(tpe types.Type, tgt swaggerTypable) error 
 			return nil
 		}
 	default:
-		panic(fmt.Sprintf("WARNING: can't determine refined type %s (%T)", titpe.String(), titpe))
+		// a type JSON cannot carry (func, chan, complex, ...): nothing to describe, and no reason to crash
+		log.Printf("WARNING: can't determine refined type %s (%T)", titpe.String(), titpe)
+		return nil
 	}
 
 	return nil
